@@ -233,3 +233,5 @@ func queryOf(urlText string) url.Values {
 	}
 	return u.Query()
 }
+
+func stdB64(b []byte) string { return base64.StdEncoding.EncodeToString(b) }
